@@ -95,7 +95,9 @@ def generate(family, rng, tier):
             if cmds[i]["at"] - cmds[i - 1]["at"] < (cmds[i - 1]["length"] + 4) * div + 2:
                 cmds[i]["length"] = cmds[i - 1]["length"]
                 cmds[i]["miso"] &= (1 << cmds[i]["length"]) - 1
-        return {"family": family, "params": {"data_width": dwidth, "mode": mode, "div": div, "loopback": div < 4 or rng.random() < 0.2,
+        ncs = rng.choice([1, 1, 2, 3])
+        sel = rng.choice([1, 1, (1 << ncs) - 1, 1 << rng.randrange(ncs), rng.getrandbits(ncs) | 1]) & ((1 << ncs) - 1)
+        return {"family": family, "params": {"data_width": dwidth, "mode": mode, "div": div, "loopback": div < 4 or rng.random() < 0.2, "ncs": ncs, "sel": sel or 1,
                                              "cs_mode": int(rng.random() < 0.2)}, "cmds": cmds}
     if family == "timer":
         ops, t = [], 4
@@ -310,7 +312,9 @@ def run_spi(scn):
     from litex.soc.cores.spi.spi_master import SPIMaster
     p = scn["params"]
     dw, div = p["data_width"], p["div"]
-    pads = Record(SPIMaster.pads_layout)
+    ncs, sel = p.get("ncs", 1), p.get("sel", 1)
+    csmask = (1 << ncs) - 1
+    pads = Record([("clk", 1), ("cs_n", ncs), ("mosi", 1), ("miso", 1)])
     dut = SPIMaster(pads, dw, sys_clk_freq=100e6, spi_clk_freq=100e6 / div, with_csr=False, mode=p["mode"])
     cmds = scn["cmds"]
     end = max(c["at"] for c in cmds) + (dw + 6) * div + 40
@@ -332,11 +336,14 @@ def run_spi(scn):
 
         def step(s_, v, t, w):
             s_.t = t
-            rows.append((v[pads.clk], v[pads.cs_n], v[pads.mosi], v[dut.done], v[dut.irq], v[dut.miso]))
+            act = ~v[pads.cs_n] & csmask        # asserted chip-select lines
+            # column 1 keeps the single-line meaning "cs_n": 0 when every SELECTED line is asserted; column 6 = lines asserted
+            # although they are not selected
+            rows.append((v[pads.clk], int((act & sel) != sel), v[pads.mosi], v[dut.done], v[dut.irq], v[dut.miso], act & ~sel))
             if t == 0:
                 w(dut.clk_divider, div)
                 w(dut.loopback, int(p["loopback"]))
-                w(dut.cs, 1)
+                w(dut.cs, sel)
                 w(dut.cs_mode, p["cs_mode"])
             w(dut.start, 0)
             if t in s_.start_at:
@@ -438,6 +445,16 @@ def run_spi(scn):
         if t1 + 1 < n and (nxt is None or nxt > t1 + 1) and rows[t1 + 1][3] != 1:
             V("done_flag", "done", "transfer at cycle %d: done not high in the cycle after the end (cycle %d)" % (t0, t1 + 1), t1)
             break
+    # a chip-select line that software did not select is never asserted (automatic and manual mode)
+    for k in range(3, n):
+        checks += 1
+        if rows[k][6]:
+            V("cs_unselected", "cs_n", "cycle %d: chip-select line(s) %#x asserted, software selected %#x (cs_mode=%d)" % (k, rows[k][6], sel, p["cs_mode"]), k)
+            break
+    if p["cs_mode"] and n > 8 and not viols:
+        checks += 1
+        if any(rows[k][1] for k in range(4, n)):
+            V("cs_framing", "cs_n", "manual chip-select mode: a selected line (%#x) is not asserted" % sel)
     # idle between transfers: no clock edges outside accepted windows
     busy = set()
     for (t0, c) in acc:
